@@ -6,6 +6,7 @@
    behaviour of strconv.  The model of /repo instantiates them with
    Token.int32_lit and the harness-supplied float oracle. *)
 From AL Require Import Expr.Parser Expr.Grammar Expr.ParserProofs.
+From AL Require Import Expr.Lexer Expr.LexerSpec Expr.LexerProofs Expr.ParseSrc Expr.ParseSrcProofs.
 
 (* parser level, over token lists *)
 Theorem C04_parse_sound : forall int_lit float_ok ts e,
@@ -44,3 +45,75 @@ Print Assumptions C04_reject_one_error.
 Theorem C04_parse_fuel_suffices : forall int_lit float_ok ts, parse_toks int_lit float_ok ts <> PFuel.
 Proof. exact parse_no_fuel. Qed.
 Print Assumptions C04_parse_fuel_suffices.
+
+(* lexer level: the token stream of ExprLexer is exactly the tokenisation the
+   declarative token specification gives (strict = the implemented number
+   forms; plus = true after repo_patches/lexparse/01-fix) *)
+Theorem C04_lex_sound : forall plus src ts e a,
+  lex_all plus src = (ts, FEnd e a) -> tokenises true plus pos0 src ts e a.
+Proof. exact lex_sound. Qed.
+Print Assumptions C04_lex_sound.
+
+Theorem C04_lex_complete : forall plus src ts e a,
+  tokenises true plus pos0 src ts e a -> lex_all plus src = (ts, FEnd e a).
+Proof. exact lex_complete. Qed.
+Print Assumptions C04_lex_complete.
+
+(* every token (also those before a lexical error) is the slice of the source
+   at its offset and a lexeme of its kind *)
+Theorem C04_lex_offsets : forall plus src ts f,
+  lex_all plus src = (ts, f) -> Forall (tok_ok plus src) ts.
+Proof. exact lex_offsets. Qed.
+Print Assumptions C04_lex_offsets.
+
+Theorem C04_lex_fuel_suffices : forall plus src ts f, lex_all plus src = (ts, f) -> f <> FFuel.
+Proof. exact lex_all_no_fuel. Qed.
+Print Assumptions C04_lex_fuel_suffices.
+
+(* what the implementation tokenises is tokenised the same way by the documented
+   forms (JSON numbers + 0x hex) ... *)
+Theorem C04_lex_within_documented : forall plus p src ts e a,
+  tokenises true plus p src ts e a -> tokenises false true p src ts e a.
+Proof. exact tokenises_documented. Qed.
+Print Assumptions C04_lex_within_documented.
+
+(* ... but not conversely: known findings (exponent / hex digits with a leading
+   zero), and the defect repaired by the fix ('+' in the exponent) *)
+Theorem C04_lex_complete_documented_refuted :
+  exists src ts e a, tokenises false true pos0 src ts e a /\
+                     forall ts' e' a', lex_all true src <> (ts', FEnd e' a').
+Proof. exact lex_complete_documented_refuted. Qed.
+Print Assumptions C04_lex_complete_documented_refuted.
+
+Theorem C04_lex_complete_documented_refuted_hex :
+  exists src ts e a, tokenises false true pos0 src ts e a /\
+                     forall ts' e' a', lex_all true src <> (ts', FEnd e' a').
+Proof. exact lex_complete_documented_refuted_hex. Qed.
+Print Assumptions C04_lex_complete_documented_refuted_hex.
+
+Theorem C04_lex_prefix_rejects_plus :
+  (exists ts e a, lex_all true "1e+5}}" = (ts, FEnd e a)) /\
+  (forall ts e a, lex_all false "1e+5}}" <> (ts, FEnd e a)).
+Proof. exact lex_prefix_rejects_plus. Qed.
+Print Assumptions C04_lex_prefix_rejects_plus.
+
+Theorem C04_parse_complete_documented_refuted :
+  exists ts e, derives int_lit_unbounded (fun _ => true) ts e /\
+               forall e', parse_toks int32_lit (fun _ => true) ts <> POk e'.
+Proof. exact parse_complete_documented_refuted. Qed.
+Print Assumptions C04_parse_complete_documented_refuted.
+
+(* source level: text is accepted iff it tokenises into a sentence; otherwise
+   exactly one diagnostic, positioned within the text; no fuel exhaustion, no panic *)
+Theorem C04_src_accept_iff : forall plus int_lit float_ok src e,
+  parse_src plus int_lit float_ok src = OAccept e <->
+  exists ts ep a, tokenises true plus pos0 src ts ep a /\ derives int_lit float_ok ts e.
+Proof. exact src_accept_iff. Qed.
+Print Assumptions C04_src_accept_iff.
+
+Theorem C04_src_outcome : forall plus int_lit float_ok src,
+  (exists e, parse_src plus int_lit float_ok src = OAccept e) \/
+  (exists le, parse_src plus int_lit float_ok src = OLexErr le /\ within src (le_pos le)) \/
+  (exists c p, parse_src plus int_lit float_ok src = OParseErr c p /\ within src p).
+Proof. exact src_outcome. Qed.
+Print Assumptions C04_src_outcome.
